@@ -28,6 +28,8 @@ def obligations(tier):
                   bounds="two captions: word counts, first one ended by the next EOC / an inline EDM / an EDM line after 3, 40 or 100 frames (five-frame rule), single/doubled, drop/non-drop"))
     obs.append(ch("timing3", "harness.C06_timing", timeout=T, functions=F, exhaustive=True,
                   bounds="three captions with every combination of clearing modes, gaps, doubling, timecode kind, offset 0/1 s"))
+    obs.append(ch("multi_position", "harness.C06_timing", timeout=T, functions=F, exhaustive=True,
+                  bounds="a caption with text at 1-3 separate screen positions (returned as that many Caption objects), last and never cleared / erased / replaced, preceded by a caption of 1 or as many parts; single/doubled; drop/non-drop: every part carries the caption's start and end"))
     obs.append(ch("close_lines", "harness.C06_timing", timeout=T, functions=F, exhaustive=True, bounds="two caption lines 12-15 frames apart"))
     obs.append(ch("bare_eoc", "harness.C06_timing", timeout=T, functions=F, exhaustive=True,
                   bounds="a lone EOC 1-3 frames after a caption appeared: 1 frame (33 ms) must raise the timing error, 2-3 frames are returned"))
